@@ -68,6 +68,11 @@ M = [
     ('small', '_to_list', 'pjplan/task.py', "    elif type(val) is Task:\n        return [val]", "    elif type(val) is Task:\n        return []", 'one-element'),
     ('small', '_check_no_nones_in_list', 'pjplan/task.py', "        if v is None:\n            raise RuntimeError(f\"{name} contains None value\")", "        pass", 'holds-no-None'),
     ('small', 'Task.estimate.setter', 'pjplan/task.py', "        if value is not None and value < 0:\n            raise RuntimeError(\"Estimate < 0\")", "        if value is not None and value < -1:\n            raise RuntimeError(\"Estimate < 0\")", 'negative'),
+    ('children', 'children.setter[no-late', 'pjplan/task.py', "            if _has_id_intersection(self, value):\n                raise RuntimeError(\"Task tree ids intersects with children ids\")", "            pass", 'id-test'),
+    ('children', 'children.setter[no-late', 'pjplan/task.py', "            if ch is self or self in ch.all_children:", "            if ch is self:", 'cycle-test'),
+    ('children', 'children.setter[no-late', 'pjplan/task.py', "            if len([v for v in value if v.__wbs is not None and v.__wbs != self.__wbs]) > 0:", "            if len([v for v in value if v.__wbs is not None and v.__wbs == self.__wbs]) > 0:", 'owner-test'),
+    ('children', 'children.setter[no-late', 'pjplan/task.py', "            if ch is self or self in ch.all_children:\n                raise RuntimeError(f\"Task {self.id} is a child of {ch.id}. Can't make child a parent of its parent\")\n            _check_no_links_to_ancestors(ch, self)",
+     "            if ch is self or self in ch.all_children:\n                raise RuntimeError(f\"Task {self.id} is a child of {ch.id}. Can't make child a parent of its parent\")", 'link-test'),
     ('closure', 'get_children', 'pjplan/task.py', "                yield ch\n                yield from get_children(ch)", "                yield from get_children(ch)\n                yield ch", 'depth-first'),
     ('closure', 'get_parent', 'pjplan/task.py', "                yield t\n                yield from get_parent(t.parent)", "                yield t", 'ancestors'),
     ('closure', 'get_predecessor', 'pjplan/task.py', "            for pr in t.predecessors:\n                yield pr\n                yield from get_predecessor(pr)", "            for pr in t.predecessors:\n                yield from get_predecessor(pr)", 'every-transitive'),
